@@ -28,6 +28,10 @@ EVID = os.path.join(ROOT, "evidence")
 REPLAYS = os.path.join(ROOT, "replays")
 KNOWN_FILE = os.path.join(ROOT, "KNOWN_FINDINGS.jsonl")
 NCPU = os.cpu_count() or 4
+# VERIF_COVER=<dir>: executors are built with coverage instrumentation of go-zero and leave their
+# counters under <dir> (tools/anchorcov.py: which anchored code does the correspondence execute)
+COVER = os.environ.get("VERIF_COVER")
+COVERPKG = "github.com/zeromicro/go-zero/..."
 
 FORBIDDEN = re.compile(
     r"\b(Admitted|admit|Axiom|Axioms|Parameter|Parameters|Conjecture|Conjectures|"
@@ -322,7 +326,8 @@ def go_build(cmd_name, tags="verif", overlay=None, race=False):
     """Build harness/cmd/<cmd_name> against REPO's working tree (optionally with overlay files
     {repo-relative path: source under /verif} replacing/adding files in go-zero packages).
     Returns (ok, binpath or log)."""
-    out_bin = os.path.join(HARNESS, "bin", cmd_name + ("-" + hashlib.sha256(REPO.encode()).hexdigest()[:6] if REPO != "/repo" else ""))
+    out_bin = os.path.join(HARNESS, "bin", cmd_name + ("-" + hashlib.sha256(REPO.encode()).hexdigest()[:6] if REPO != "/repo" else "")
+                           + ("-cover" if COVER else ""))
     os.makedirs(os.path.dirname(out_bin), exist_ok=True)
     cmd = ["go", "build", "-modfile", harness_modfile(), "-tags", tags, "-o", out_bin]
     ovp = write_overlay(overlay, "build_" + cmd_name)
@@ -330,6 +335,8 @@ def go_build(cmd_name, tags="verif", overlay=None, race=False):
         cmd += ["-overlay", ovp]
     if race:
         cmd.append("-race")
+    if COVER:
+        cmd += ["-cover", "-coverpkg=" + COVERPKG + ",verifh/..."]  # main must be instrumented too or nothing is emitted
     cmd.append("./cmd/" + cmd_name)
     rc, out = sh(cmd, cwd=HARNESS, env=goenv(), timeout=900)
     return (rc == 0), (out_bin if rc == 0 else out)
@@ -360,6 +367,10 @@ def go_run(binpath, cases, tag="x", timeout=900, env=None, args=None):
     e = goenv({"VERIF_IN": pin, "VERIF_OUT": pout})
     if env:
         e.update(env)
+    if COVER:
+        cd = os.path.join(COVER, "bin")
+        os.makedirs(cd, exist_ok=True)
+        e["GOCOVERDIR"] = cd
     rc, out = sh([binpath] + (args or []), cwd=HARNESS, env=e, timeout=timeout)
     try:
         res = _read_jsonl(pout) if os.path.exists(pout) else []
@@ -390,6 +401,10 @@ def go_test_overlay(pkg, files, run, cases, tag="x", timeout=900, env=None, race
            "-timeout", "%ds" % timeout, "-run", run]
     if race:
         cmd.append("-race")
+    if COVER:
+        os.makedirs(COVER, exist_ok=True)
+        cmd += ["-coverpkg=" + COVERPKG,
+                "-coverprofile=" + os.path.join(COVER, "test_%s_%d_%d.out" % (tag, os.getpid(), int(time.time() * 1000) % 100000000))]
     cmd += (extra_args or []) + [pkg]
     rc, out = sh(cmd, cwd=REPO, env=e, timeout=timeout + 60)
     try:
